@@ -1,5 +1,6 @@
 import HailVerif.Proofs.CallPack
 import HailVerif.Proofs.ScalaCall
+import HailVerif.Model.CallEngine
 /-!
 # C34 — Genotype call packing agrees with the engine
 
@@ -14,7 +15,7 @@ All theorems quantify over every call in range: ploidy 0–2, phased or not, all
 engine's limit `2^29` (`CallPack.InRange`).
 -/
 namespace HailVerif.C34
-open HailVerif.CallPack HailVerif.Jvm HailVerif.Generated.ScalaCall
+open HailVerif.CallPack HailVerif.Jvm HailVerif.Generated.ScalaCall HailVerif.CallEngine
 
 /-- Every in-range call is written (no assertion / `struct.error`) and read back as the same call. -/
 theorem decode_encode (c : Call) (h : InRange c) :
@@ -95,15 +96,9 @@ theorem raw_ploidy_bits (c : Call) (r : Nat) (h : encodeRaw c = some r) : (r >>>
 
 /-! ## The engine side -/
 
-/-- `CallN.apply(alleles, phased)` (Call.scala): the dispatch on the ploidy, transcribed by hand — the translator
-checks on every run that the Scala text of `CallN.apply` still is this dispatch. Front-end alleles are passed as the
-JVM `Int`s of the same value. -/
-def enginePack (c : Call) : Option I32 :=
-  match c.alleles with
-  | [] => Call0_apply c.phased
-  | [a] => Call1_apply (bv a) c.phased
-  | [j, k] => Call2_apply (bv j) (bv k) c.phased
-  | _ => none
+/-! `CallEngine.enginePack` is `CallN.apply(alleles, phased)` and `CallEngine.engineUnpack` is
+`Call.alleles` / `Call.isPhased` (Model/CallEngine.lean: the two ploidy dispatches transcribed by hand over the
+generated functions; the translator checks their Scala text on every run). -/
 
 /-- The Python front end packs every in-range call into exactly the 32-bit word the engine's constructors
 (`Call0/Call1/Call2.apply` → `Call.apply`, `Genotype.diploidGtIndex[WithSwap]`) produce for it, and the engine
@@ -182,6 +177,36 @@ theorem engine_unpack_eq_python_unpack (c : Call) (h : InRange c) :
       · rw [AllelePair_j_bv, apJ_pack (by omega)]
       · rw [AllelePair_k_bv (pack_lt (by omega) (by omega)), apK_pack (by omega) (by omega)]
 
+/-- Packing by the engine and unpacking by the engine is the identity on in-range calls, and (by
+`python_pack_eq_engine_pack`) the word is the one the Python encoder writes: the engine reads every call the front
+end sends as the call the front end meant. -/
+theorem engine_unpack_engine_pack (c : Call) (h : InRange c) :
+    ∃ w : I32, enginePack c = some w ∧ encodeCall c = some w.toInt ∧ engineUnpack w = some c := by
+  obtain ⟨w, hw, hp, hph, h1, h2⟩ := engine_unpack_eq_python_unpack c h
+  obtain ⟨w', hw', he⟩ := python_pack_eq_engine_pack c h
+  have : w' = w := by rw [hw] at hw'; exact (Option.some.inj hw').symm
+  subst this
+  refine ⟨w', hw, he, ?_⟩
+  have hlen := length_le_of_inRange h
+  unfold engineUnpack
+  simp only [hp, hph, toNat_bv (show c.alleles.length < 2 ^ 32 by omega)]
+  rcases c with ⟨al, ph⟩
+  match al, h, h1, h2 with
+  | [], _, _, _ => simp
+  | [a], h, h1, _ =>
+    have ha : a < 2 ^ 29 := h
+    simp [h1 a rfl, toNat_bv (show a < 2 ^ 32 by omega)]
+  | [j, k], h, _, h2 =>
+    obtain ⟨e1, e2, e3⟩ := h2 j k rfl
+    have hk : j < 32768 ∧ k < 32768 := by
+      cases ph
+      · have := row_lt_of_lt h.2; have := h.1; omega
+      · have := row_lt_of_lt (show gtIndex j (j + k) < 2 ^ 29 from h); omega
+    simp only [List.length_cons, List.length_nil, e1, Option.bind_some, e2, e3,
+      toNat_bv (show j < 2 ^ 32 by omega), toNat_bv (show k < 2 ^ 32 by omega)]
+    simp
+  | _ :: _ :: _ :: _, _, _, _ => simp at hlen
+
 /-! ## Non-vacuity and boundary witnesses -/
 
 -- the calls the hypotheses admit: every ploidy and phasing, up to the largest representation
@@ -197,6 +222,7 @@ example : encodeCall ⟨[3, 1], true⟩ = some 109 := by decide
 example : encodeCall ⟨[2 ^ 29 - 1], false⟩ = some (-6) := by decide    -- the wrap is exercised
 example : decodeCall (-6) = some ⟨[2 ^ 29 - 1], false⟩ := by decide
 example : enginePack ⟨[3, 1], true⟩ = some 109#32 := by decide
+example : engineUnpack 109#32 = some ⟨[3, 1], true⟩ := by decide
 -- the range hypothesis is needed: one past the limit the engine refuses (`fatal`) while the Python encoder
 -- silently writes a word that decodes to a different call (observed on the real code too; outside the property)
 example : enginePack ⟨[16384, 32767], false⟩ = none := by decide
